@@ -58,13 +58,13 @@ func init() {
 	}
 	addProp(&propDef{
 		ID: "C01", Check: "lang", Level: "model_checking",
-		Rule:        "structural layer: for every grammar-derived spec up to the structural size bound, the automaton compiled by the library (read back state by state) is compared with the partial-derivative automaton of the spec's AST by BFS over the product of the two subset automata (states/transitions = product states/edges; decides language equality over abstract letters for words of unbounded length; a distinguishing word is concretised and must be reproduced on Cli.Run before it is reported); concrete layer (= traces validated against the implementation): all grammar-derived spec strings up to the size bound (size = leaves + `...` + bracket pairs; deduplicated through a set) x all argument vectors up to the length bound over the token alphabet (every documented spelling, positionals, '-', '--', undeclared and malformed tokens), plus per spec all words over the spec's own letters up to length 5/6 (8/9 when the spec has at most two letters) (model traces); each pair is run on a freshly built application through Cli.Run and judged by the reference; pairs are distinct by construction; non-trivial = the reference accepts, or some atom consumed a token before rejecting; built-in tier: every case a second time with one caller-owned default slice behind every multi-valued declaration (acceptance unchanged); third declaration set `num` (flags -4/--ipv4 and -6, flags -i -n/--nan -f/--nan-ok, valued -p/--port); structural layer also over the operator towers W3(W1(a) op W2(b)), W any stack of <= 2 (thorough 3) of [s], (s)..., [s]...",
+		Rule:        "structural layer: for every grammar-derived spec up to the structural size bound, the automaton compiled by the library (read back state by state) is compared with the partial-derivative automaton of the spec's AST by BFS over the product of the two subset automata (states/transitions = product states/edges; decides language equality over abstract letters for words of unbounded length; a distinguishing word is concretised and must be reproduced on Cli.Run before it is reported); concrete layer (= traces validated against the implementation): all grammar-derived spec strings up to the size bound (size = leaves + `...` + bracket pairs; deduplicated through a set) x all argument vectors up to the length bound over the token alphabet (every documented spelling, positionals, '-', '--', undeclared and malformed tokens), plus per spec all words over the spec's own letters up to length 5/6 (8/9 when the spec has at most two letters) (model traces); each pair is run on a freshly built application through Cli.Run and judged by the reference; pairs are distinct by construction; non-trivial = the reference accepts, or some atom consumed a token before rejecting; built-in tier: every case a second time with one caller-owned default slice behind every multi-valued declaration (acceptance unchanged); third declaration set `num` (flags -4/--ipv4 and -6, flags -i -n/--nan -f/--nan-ok, valued -p/--port); structural layer also over the operator towers W3(W1(a) op W2(b)), W any stack of <= 2 (thorough 3) of [s], (s)..., [s]...; one tier with the standard program declared on a sub-command `sub` (lazy initialisation, command line prefixed with `sub`)",
 		Assumptions: langAssume,
 		Budget:      [2]int{1200, 7200},
 	})
 	addProp(&propDef{
 		ID: "C02", Check: "lang", Level: "exploration",
-		Rule:        "same (spec, argv) space as C01; judged on every accepted pair: the per-container value lists observed inside the Action must equal the bindings of one accepting derivation of the reference (all derivations are computed, ambiguous specs included), and independently of the reference matcher every option holds exactly its occurrences' values in command-line order and the positional tokens are partitioned in order over the arguments; non-trivial = accepted pairs with a claimed verdict; built-in tier: the same case with one caller-owned default slice behind every multi-valued declaration binds the same values; declaration set `num`; inline value `w_-=z`",
+		Rule:        "same (spec, argv) space as C01; judged on every accepted pair: the per-container value lists observed inside the Action must equal the bindings of one accepting derivation of the reference (all derivations are computed, ambiguous specs included), and independently of the reference matcher every option holds exactly its occurrences' values in command-line order and the positional tokens are partitioned in order over the arguments; non-trivial = accepted pairs with a claimed verdict; built-in tier: the same case with one caller-owned default slice behind every multi-valued declaration binds the same values; declaration set `num`; inline value `w_-=z`; one tier with the standard program declared on a sub-command `sub` (lazy initialisation, command line prefixed with `sub`)",
 		Assumptions: langAssume,
 		Budget:      [2]int{1200, 7200},
 	})
@@ -86,17 +86,17 @@ func init() {
 	}
 	addProp(&propDef{
 		ID: "C09", Check: "meta", Level: "exploration",
-		Rule:        "part 1: every `--`-free grammar-derived spec up to the size bound x every argv up to the length bound without `--` and without malformed token x every insertion point of `--` from the start of the trailing block of non-dash positional items to the very end: the outcome (acceptance and every binding) of the two real runs must be identical; part 2: every spec of the bound containing `--` x every argv of length <=3 over {x,-a,-z,--zz,--,-,-o,-o=}: acceptance and bindings against the reference (tokens after the marker verbatim); evaluations = compared pairs; non-trivial = pairs whose base outcome is an acceptance; part 3: replacing every token after the first `--` by a neutral placeholder changes nothing but the bound strings",
+		Rule:        "part 1: every `--`-free grammar-derived spec up to the size bound x every argv up to the length bound without `--` and without malformed token x every insertion point of `--` from the start of the trailing block of non-dash positional items to the very end: the outcome (acceptance and every binding) of the two real runs must be identical; part 2: every spec of the bound containing `--` x every argv of length <=3 over {x,-a,-z,--zz,--,-,-o,-o=}: acceptance and bindings against the reference (tokens after the marker verbatim); evaluations = compared pairs; non-trivial = pairs whose base outcome is an acceptance; part 3: replacing every token after the first `--` by a neutral placeholder changes nothing but the bound strings; one tier with the standard program declared on a sub-command `sub` (lazy initialisation, command line prefixed with `sub`)",
 		Assumptions: metaAssume,
 	})
 	addProp(&propDef{
 		ID: "C10", Check: "meta", Level: "exploration",
-		Rule:        "every `--`-free grammar-derived spec up to the size bound x all argvs up to the length bound over the spelling alphabet; argvs are bucketed by their reading (sequence of (option,value) occurrences, positionals, end marker); every member of a bucket must have the outcome of the bucket's first member, accepted or not; evaluations = member-vs-representative comparisons; non-trivial = at least one of the two is accepted; the tables of the first tier are built a second time with both env-backed options satisfied by their environment variables; declaration set `num` (digit-named flag, folds reading like numbers)",
+		Rule:        "every `--`-free grammar-derived spec up to the size bound x all argvs up to the length bound over the spelling alphabet; argvs are bucketed by their reading (sequence of (option,value) occurrences, positionals, end marker); every member of a bucket must have the outcome of the bucket's first member, accepted or not; evaluations = member-vs-representative comparisons; non-trivial = at least one of the two is accepted; the tables of the first tier are built a second time with both env-backed options satisfied by their environment variables; declaration set `num` (digit-named flag, folds reading like numbers); one tier with the standard program declared on a sub-command `sub` (lazy initialisation, command line prefixed with `sub`)",
 		Assumptions: metaAssume,
 	})
 	addProp(&propDef{
 		ID: "C11", Check: "meta", Level: "exploration",
-		Rule:        "every `--`-free grammar-derived spec up to the size bound x every argv up to the length bound x every adjacent pair of occurrences of different options (two whole-token occurrences of 1 or 2 tokens, two neighbouring letters of a flag fold, or a whole folded token with its value moved past an adjacent occurrence of an option it does not contain): the swapped command line must have the identical outcome; evaluations = compared pairs; non-trivial = at least one of the two is accepted; the tables of the first tier are built a second time with both env-backed options satisfied by their environment variables; declaration set `num`",
+		Rule:        "every `--`-free grammar-derived spec up to the size bound x every argv up to the length bound x every adjacent pair of occurrences of different options (two whole-token occurrences of 1 or 2 tokens, two neighbouring letters of a flag fold, or a whole folded token with its value moved past an adjacent occurrence of an option it does not contain): the swapped command line must have the identical outcome; evaluations = compared pairs; non-trivial = at least one of the two is accepted; the tables of the first tier are built a second time with both env-backed options satisfied by their environment variables; declaration set `num`; one tier with the standard program declared on a sub-command `sub` (lazy initialisation, command line prefixed with `sub`)",
 		Assumptions: metaAssume,
 	})
 }
@@ -104,7 +104,7 @@ func init() {
 func init() {
 	addProp(&propDef{
 		ID: "C12", Check: "env", Level: "exploration",
-		Rule: "every grammar-derived spec up to the size bound x every argv up to the length bound x every non-empty subset E of {a, o} backed by a set, valid environment variable; two real runs (variables unset / set): (1) accepted unset => accepted set; (2) for specs without `--`: written options hold exactly their command-line values, unwritten env-backed options hold the environment value; (3) for argvs naming no option of E: reference(spec with E's single atoms optional) accepts => accepted, reference(... and groups containing an E option optional) rejects => rejected (in between: unclaimed U3); non-trivial = accepted in at least one of the two runs; env set {a: 0} (a false spelling satisfies like any valid value); acceptance with built-in value types equals acceptance with the custom types",
+		Rule: "every grammar-derived spec up to the size bound x every argv up to the length bound x every non-empty subset E of {a, o} backed by a set, valid environment variable; two real runs (variables unset / set): (1) accepted unset => accepted set; (2) for specs without `--`: written options hold exactly their command-line values, unwritten env-backed options hold the environment value; (3) for argvs naming no option of E: reference(spec with E's single atoms optional) accepts => accepted, reference(... and groups containing an E option optional) rejects => rejected (in between: unclaimed U3); non-trivial = accepted in at least one of the two runs; env set {a: 0} (a false spelling satisfies like any valid value); acceptance with built-in value types equals acceptance with the custom types; size <= 2 also with the program declared on a sub-command",
 		Assumptions: []string{"reference semantics of DESIGN.md section 4 with env-backed atoms made optional", "environment variables VQ_A / VQ_O are set only around the declaration of the application under test and unset afterwards"},
 	})
 }
